@@ -229,9 +229,13 @@ func (s *FastModularNetworkSolver) recursiveActivateNode(currentNode int) (res b
 	// This is no longer being calculated (for cycle detection)
 	s.inActivation[currentNode] = false
 
+	// Hand the processing buffer back zeroed (as forward propagation does), a later forward step adds to it
+	signal := s.neuronSignalsBeingProcessed[currentNode]
+	s.neuronSignalsBeingProcessed[currentNode] = 0
+
 	// Set this signal after running it through the activation function
 	if s.neuronSignals[currentNode], err = neatmath.NodeActivators.ActivateByType(
-		s.neuronSignalsBeingProcessed[currentNode], nil,
+		signal, nil,
 		s.activationFunctions[currentNode]); err != nil {
 		// failed to activate
 		res = false
